@@ -166,10 +166,13 @@ def part_sites(ctx, drv):
     texts = list(G.exhaustive(G.A7, 3 if quick else 4))
     texts += list(G.random_texts(rng, 150 if quick else 3000))
     texts += list(G.random_strings(rng, G.PRINTABLE_POOL + ['\n', ' '], 150 if quick else 3000, 1, 24))
+    # blanks at the end of a line that is not the last one; several empty lines in a row; a line of only a backslash
+    special = ['a \na', 'x  \ny  \nz', 'a\n\n\nb', 'a \n\nb', 'a\n  b  \nc', 'end \nof line', 'a\n\\\nb']
+    texts += special
     texts = list(dict.fromkeys(texts))
     jobs = []
     for i, t in enumerate(texts):
-        for site in (S.SITES if (len(t) <= 3 or not quick) else [S.SITES[(i + k) % len(S.SITES)] for k in range(3)]):
+        for site in (S.SITES if (len(t) <= 3 or not quick or t in special) else [S.SITES[(i + k) % len(S.SITES)] for k in range(3)]):
             jobs.append((site, t))
     # the model-side domain predicate
     reasons = None
